@@ -58,8 +58,16 @@ func ParseProtected(src []byte, v *version.Version, withCallback bool) (res Resu
 		syscall.Mprotect(region, syscall.PROT_READ|syscall.PROT_WRITE)
 	}()
 	res = parseNoCopy(in, src, v, withCallback)
-	if res.Panic != nil && strings.Contains(fmt.Sprint(res.Panic), "unexpected fault address") {
-		writeFault = true
+	if res.Panic != nil {
+		msg := fmt.Sprint(res.Panic)
+		if strings.Contains(msg, "unexpected fault address") || strings.Contains(msg, "invalid memory address") {
+			// a fault on the protected mapping, or an ordinary nil dereference? The same parse on ordinary
+			// memory tells: if it does not panic, the fault was a store into the input.
+			syscall.Mprotect(region, syscall.PROT_READ|syscall.PROT_WRITE)
+			if plain := Parse(src, v, withCallback); plain.Panic == nil {
+				writeFault = true
+			}
+		}
 	}
 	return res, writeFault, true
 }
